@@ -176,6 +176,24 @@ pub struct Built {
     pub v: Voronoi,
     pub nonsym: Vec<FaceIntegrator<AreaCentroidIntegral>>,
     pub trace: Trace,
+    /// The tessellation of the DIRECT route (`Voronoi::build` / `build_partial`), kept only when it is not bitwise the one
+    /// converted from the integrator (`v`): the monitors then judge it with the same oracles (`other_route`). When the two
+    /// digests agree the verdict on `v` is the verdict on both routes.
+    pub direct: Option<Voronoi>,
+}
+
+impl Built {
+    /// When the direct route produced another tessellation than the integrator route: the same observation with the direct
+    /// tessellation in the place of `v` (to be judged by the same oracle). None when both routes agree bitwise.
+    pub fn other_route(&mut self) -> bool {
+        match self.direct.take() {
+            Some(d) => {
+                self.v = d;
+                true
+            }
+            None => false,
+        }
+    }
 }
 
 pub fn mask_ref(c: &Case) -> Option<&[bool]> {
@@ -203,11 +221,16 @@ pub fn build_observed(c: &Case, exact_cap: usize, cand_cap: usize) -> Result<Bui
         (vi, v, nonsym)
     });
     let trace = verif::trace_end();
-    r.map(|(vi, v, nonsym)| Built {
+    let (vi, v, nonsym) = r?;
+    // the direct route, outside the trace (the hook events of the case are those of one construction)
+    let direct = guarded(|| build_direct(c))?;
+    let direct = if digest_voronoi(&direct).0 == digest_voronoi(&v).0 { None } else { Some(direct) };
+    Ok(Built {
         vi,
         v,
         nonsym,
         trace,
+        direct,
     })
 }
 
